@@ -141,11 +141,14 @@ def check_case(outcome, flagbits, report_to, subject='clock'):
         flags |= B.FLAG_STATUS_TIME
     world = world_for(outcome)
     prior = None
-    if subject.endswith('-after'):
+    base = subject
+    if subject.endswith('-after') or subject.endswith('-after2'):
         # history: the same agent has already processed an earlier bundle of the same source (same creation time,
-        # the sequence number before this one; no reports requested), so the subject is not the first it sees
-        prior = B.encode(bundle_for(outcome, 0, 'dtn:none', seq=0, subject=subject[:-6]))
-    bundle = bundle_for(outcome, flags, report_to, subject=subject[:-6] if prior else subject)
+        # the sequence number before this one; no reports requested), so the subject is not the first it sees;
+        # -after2: two earlier bundles, with the sequence numbers on either side of the subject's
+        base = subject[:subject.rindex('-after')]
+        prior = [B.encode(bundle_for(outcome, 0, 'dtn:none', seq=q, subject=base)) for q in ((0, 2) if subject.endswith('2') else (0,))]
+    bundle = bundle_for(outcome, flags, report_to, subject=base)
     data = B.encode(bundle)
     label = dict(outcome=outcome, requested=sorted(requested), status_time=want_time, report_to=report_to, subject=subject)
     out = []
@@ -156,8 +159,9 @@ def check_case(outcome, flagbits, report_to, subject='clock'):
         out.append(v)
     before = 0
     if prior is not None:
-        world.receive(prior)
-        world.quiesce()
+        for octets in prior:
+            world.receive(octets)
+            world.quiesce()
         before = len(world.sent())
     if outcome == 'duplicate':
         world.receive(data)
@@ -255,7 +259,9 @@ def run_outcome(params, known):
     combos = [('dtn:none', 'clock'), ('dtn://rpt/x', 'clock'), ('dtn://rpt/x', 'clockless'), ('ipn:977000.100.7', 'ipn3'),
               ('dtn://Rp/?b', 'odd-eids'), ('dtn://rpt/x', 'clock-after'), ('dtn://rpt/x', 'clockless-after')]
     if params.get('tier') == 'thorough':
-        combos += [('dtn://rpt/x', 'crc0'), ('dtn://rpt/x', 'crc2'), ('ipn:9.9', 'clock'), ('dtn:none', 'clockless')]
+        combos += [('dtn://rpt/x', 'crc0'), ('dtn://rpt/x', 'crc2'), ('ipn:9.9', 'clock'), ('dtn:none', 'clockless'),
+                   ('ipn:977000.100.7', 'ipn3-after'), ('dtn://rpt/x', 'clock-after2'), ('dtn://rpt/x', 'clockless-after2'),
+                   ('dtn://Rp/?b', 'odd-eids-after')]
         if outcome in ('forward', 'delete-by-route', 'forward-without-tx-route', 'no-matching-route'):
             combos.append(('dtn://rpt/x', 'fragment'))
     for (report_to, subject) in combos:
@@ -288,7 +294,7 @@ ASSUMPTIONS = [
     'the nineteen outcomes are produced by routing tables / a BIB or BCB with an unknown security context / an undecodable BCB / a route MTU of 120 octets',
     'thorough tier: also subjects without CRC / with CRC-32, an ipn report-to endpoint, and subjects that are themselves fragments (fragment fields of the report are not judged)',
     'subjects: a bundle with a creation time, one from a clockless source (creation time 0, sequence number, age block), and one whose source and report-to are three-number ipn endpoint IDs',
-    'histories: the subject is also judged as the second bundle of its source on one agent (same creation time, next sequence number; with and without a clock)',
+    'histories: the subject is also judged as the second bundle of its source on one agent (same creation time, next sequence number; with and without a clock); thorough tier: also as the third, between the sequence numbers of two earlier ones, and with ipn / odd endpoint IDs',
     'a report is required for deliver / forward / delete-by-route / own-endpoint when a requested action occurred (the title says "exactly when requested"); for the other outcomes only reports that are emitted are judged',
 ]
 
